@@ -226,7 +226,12 @@ func (d *Decoder) object(seg, tw int, desc uint64, depth int) (*V, error) {
 			return nil, err
 		}
 		d.ext(seg, tw, words, "list")
-		return &V{Kind: KList, ET: et, N: n, Data: append([]byte(nil), b[:nbytes]...)}, nil
+		data := append([]byte(nil), b[:nbytes]...)
+		if et == ETBit && n%8 != 0 {
+			// the unused bits of the last byte are padding, not value
+			data[nbytes-1] &= byte(1)<<uint(n%8) - 1
+		}
+		return &V{Kind: KList, ET: et, N: n, Data: data}, nil
 	case ETPtr:
 		if _, err := d.region(seg, tw, n); err != nil {
 			return nil, err
